@@ -47,7 +47,7 @@ PROPS['C08'] = dict(level='model_checking',
   harnesses=[
     H('v2_nest_vs_join', 'C08_scope_v2.cpp', ['h_nest0', 'h_join0'], 18, final='h_final11', desc='nest/start/complete racing join'),
   ] + [SEQ('v1_plan_%02d' % p, 'C08_scope_v1.cpp', 'h_scope_v1', exc=True, opts=dict(params=[p], max_rec=4), desc='v1 scope with one attached manual leaf, event plan %d (base-4: 0 complete(), 1 cleanup(), 2 request_stop(), 3 work finishes); leaf outcome symbolic' % p) for p in range(64)] + [
-    H('v2_two_nest_one_join', 'C08_scope_v2.cpp', ['h_nest0', 'h_nest1', 'h_join0'], 24, final='h_final21', tier='deep', timeout=3000, desc='two nest/start/complete racing join'),
+    H('v2_two_nest_one_join', 'C08_scope_v2.cpp', ['h_nest0', 'h_nest1', 'h_join0'], 24, final='h_final21', tier='thorough', timeout=3000, desc='two nest/start/complete racing join'),
     H('v2_nest_two_joins', 'C08_scope_v2.cpp', ['h_nest0', 'h_join0', 'h_join1'], 24, final='h_final12', tier='thorough', timeout=3000, desc='one nest racing two joins'),
   ])
 
